@@ -108,6 +108,7 @@ var CurrentFile string
 type PropSpec struct {
 	Profiles []string
 	Classes  []string // mismatch classes that refute the property ("*" = all)
+	OpKinds  []int    // any mismatch of a state class during one of these operations refutes it too
 	Quick    int      // cases
 	Thorough int
 	MinOps   int
@@ -122,22 +123,37 @@ var Specs = map[string]*PropSpec{
 		Rule: "expiry-biased sequence (clock moved exactly onto deadlines, no CleanUp) where every public operation is applied to expired-but-unswept keys; non-trivial = at least 3 operations hit an expired-unswept key; distinct = hash of (config, ops)"},
 	"C07": {Profiles: []string{"size", "mix", "sweep"}, Classes: []string{"overflow", "bound"}, Quick: 3000, Thorough: 300000, MinOps: 80, MaxOps: 400,
 		Rule: "size-biased sequence; every Overflow/Expiration event is judged against the model's total weight / deadline at that moment; non-trivial = at least one automatic removal; distinct = hash of (config, ops)"},
-	"C10": {Profiles: []string{"load"}, Classes: []string{"load"}, Quick: 3000, Thorough: 300000, MinOps: 60, MaxOps: 200,
+	"C10": {Profiles: []string{"load", "refresh"}, Classes: []string{"load"}, OpKinds: []int{OpGet, OpBulkGet, OpRefresh, OpBulkRefresh}, Quick: 3000, Thorough: 300000, MinOps: 60, MaxOps: 200,
 		Rule: "load-biased sequence with every loader outcome and bulk shape; non-trivial = at least 3 loader invocations with 2 different outcomes; distinct = hash of (config, ops)"},
-	"C11": {Profiles: []string{"refresh"}, Classes: []string{"refresh", "load"}, Quick: 3000, Thorough: 200000, MinOps: 60, MaxOps: 200,
+	"C11": {Profiles: []string{"refresh"}, Classes: []string{"refresh", "load"}, OpKinds: []int{OpGet, OpBulkGet, OpRefresh, OpBulkRefresh}, Quick: 3000, Thorough: 200000, MinOps: 60, MaxOps: 200,
 		Rule: "refresh-biased sequence (clock moved onto refresh deadlines); non-trivial = at least one reload and one manual refresh message; distinct = hash of (config, ops)"},
 	"C12": {Profiles: []string{"expiry", "refresh"}, Classes: []string{"deadline"}, Quick: 3000, Thorough: 300000, MinOps: 60, MaxOps: 250,
 		Rule: "deadline-biased sequence; after every operation ExpiresAtNano/RefreshableAtNano of every key is compared with op time + calculator duration (saturating); non-trivial = at least 5 calculator consultations; distinct = hash of (config, ops)"},
 	"C13": {Profiles: []string{"sweep"}, Classes: []string{"sweep"}, Quick: 2000, Thorough: 200000, MinOps: 80, MaxOps: 400,
 		Rule: "sweep-biased sequence (TTLs ns..years, clock jumps up to many wheel revolutions, CleanUp); at each CleanUp every entry older than one tick must be gone and reported; non-trivial = at least one CleanUp that judged an expired entry; distinct = hash of (config, ops)"},
+	"C04": {Profiles: []string{"size"}, Classes: []string{"bound"}, Quick: 1500, Thorough: 100000, MinOps: 80, MaxOps: 400,
+		Rule: "sequential part: size-biased sequences, the weight total of the model's physical contents is compared with the maximum after every operation (same-goroutine executor, so maintenance has run)"},
+	"C05": {Profiles: []string{"size", "mix"}, Classes: []string{"views"}, Quick: 1500, Thorough: 100000, MinOps: 80, MaxOps: 400,
+		Rule: "sequential part: EstimatedSize, WeightedSize, GetMaximum, All/Keys/Values/Hottest/Coldest compared with the model after operations"},
+	"C06": {Profiles: []string{"mix", "expiry", "size"}, Classes: []string{"event"}, Quick: 2000, Thorough: 150000, MinOps: 80, MaxOps: 300,
+		Rule: "sequential part: the exact multiset of OnAtomicDeletion/OnDeletion events of every operation (own effects with Replacement/Invalidation/Expiration causes, automatic removals) is compared with the model"},
 	"C20": {Profiles: []string{"stats", "load"}, Classes: []string{"stats"}, Quick: 2000, Thorough: 200000, MinOps: 80, MaxOps: 300,
 		Rule: "sequence with a stats recorder; Stats() compared with the model's tallies after every operation; non-trivial = at least 10 counted lookups and one load; distinct = hash of (config, ops)"},
 }
 
-func (s *PropSpec) refutes(class string) bool {
+func (s *PropSpec) refutes(class string, opKind int) bool {
 	for _, c := range s.Classes {
 		if c == "*" || c == class {
 			return true
+		}
+	}
+	// the cache's state or an event deviates from the model during an operation the property is about
+	switch class {
+	case "ret", "event", "calc", "views", "expired":
+		for _, k := range s.OpKinds {
+			if k == opKind {
+				return true
+			}
 		}
 	}
 	return false
@@ -290,7 +306,11 @@ func RunProperty(col *core.Collector, prop, tier string, seed uint64, shard, nsh
 			col.Sample(map[string]any{"profile": s.Profile, "config": s.Cfg, "first_ops": opStrings(s.Ops), "total_ops": len(c.Ops)})
 		}
 		if len(mm) > 0 {
-			if !spec.refutes(mm[0].Class) {
+			failedKind := -1
+			if len(c.Ops) > 0 {
+				failedKind = c.Ops[len(c.Ops)-1].Kind
+			}
+			if !spec.refutes(mm[0].Class, failedKind) {
 				otherClasses[mm[0].Class]++
 				continue
 			}
